@@ -385,6 +385,43 @@ def _check_splice(case):
     return 1, "spliced", ("success", align, stop is None, len(ivs), len(pts)), viols
 
 
+def _check_splice_order(case):
+    """zero-crossing snapping is not monotone: an exact-zero sample further along the search window outranks a nearer sign change, so the START of a
+    region to replace can be sent to a later crossing than its END.  audioSplice then either refuses, or returns audio and textgrid that are in step"""
+    zero_at, start, stop = case
+    rate = 16000
+    smp = [100] * 400
+    smp[99], smp[100] = 5, -3
+    for i in range(101, zero_at):
+        smp[i] = -50
+    smp[zero_at] = 0
+    for i in range(zero_at + 1, 400):
+        smp[i] = 70
+    w = mkwav(smp, 2, rate)
+    sp = mkwav([((i * 37) % 21) - 10 for i in range(80)], 2, rate)
+    dur = 400 / rate
+    tg = Textgrid(0, dur)
+    tg.addTier(IT("w", [(0.0, 0.004, "a"), (0.015, 0.02, "z")], 0, dur))
+    tg.addTier(PT("p", [(0.002, "p"), (0.018, "q")], 0, dur))
+    st, r, _ = guarded(praatio_scripts.audioSplice, w, sp, tg, "w", "NEW", start / rate, stop / rate, True)
+    tag = f"audioSplice(region samples {start}..{stop}, alignToZeroCrossing=True) on a recording with a sign change at sample 100 and an exact zero at sample {zero_at}"
+    if st == "hang":
+        return 1, "hang", None, [Viol("non-termination", tag)]
+    if st == "exc":
+        if isinstance(r, PE):
+            return 1, "refused", (zero_at, start, stop), []
+        return 1, "X", None, [Viol("splice-raised:" + type(r).__name__, f"{tag}: {r!r}")]
+    a2, tg2 = r
+    viols = []
+    if abs(a2.duration - tg2.maxTimestamp) > 1 / rate + 1e-9:
+        viols.append(Viol("splice-durations", f"{tag}: the audio lasts {a2.duration!r} s, the textgrid ends at {tg2.maxTimestamp!r} s"))
+    news = [e for e in tg2.getTier("w").entries if e[2] == "NEW"]
+    # (with alignment the inserted audio is itself trimmed to its own zero crossings, so NEW is at most 80 samples long)
+    if len(news) != 1 or not (0 < (news[0][1] - news[0][0]) * rate <= 80 + 1e-6):
+        viols.append(Viol("splice-new-does-not-cover-inserted-audio", f"{tag}: NEW intervals {[tuple(e) for e in news]} for at most 80 inserted samples"))
+    return 1, "spliced", (zero_at, start, stop), viols
+
+
 def parts(tier):
     quick = tier == "quick"
     alpha = (-2, 0, 1) if quick else (-2, -1, 0, 1)
@@ -464,6 +501,11 @@ def parts(tier):
                   rule="interval sets (<=2) on boundaries %s x point sets x adjust flags (and textgrids with two interval and two point tiers) over a 32-sample "
                        "dense-crossing recording at rate 1000: only timestamps change, each to a crossing; tier order, counts, labels kept (a praatio error is accepted "
                        "when boundaries collapse)" % (TG_GRID,), bounds={}),
+        InputPart("audioSplice-snapped-region-order", lambda: ((z, a, b) for z in (115, 120, 130) for a in (98, 100, 101, 105) for b in (104, 110, 112, 140) if a < b),
+                  _check_splice_order,
+                  rule="a recording with a sign change at sample 100 and an exact zero at sample 115 / 120 / 130 x regions starting at 98..105 and ending at 104..140 "
+                       "with alignToZeroCrossing=True (the start may be sent to a LATER crossing than the end): audioSplice refuses with a praatio error, or audio and "
+                       "textgrid are in step and there is one NEW interval of at most the 80 inserted samples", bounds={}),
         InputPart("audioSplice", gen_splice, _check_splice,
                   rule="interval sets (<=2) x point sets x insertion points x optional replaced region x alignToZeroCrossing: durations "
                        "agree within a sample, exactly one NEW interval that covers exactly the inserted samples, earlier entries "
